@@ -881,6 +881,9 @@ _HC3_DEC = [
     "Woodpile.Props.C07P.dec_finish_after_error",
     "Woodpile.Props.C07P.dec_failed_call_appends",
     "Woodpile.Props.C07P.output_of_session",
+    "Woodpile.Props.C07P.dec_first_error_classified",
+    "Woodpile.Props.C07P.dec_output_until_error",
+    "Woodpile.Props.C07P.dec_failed_output_split_independent",
 ]
 _HC3_ENC = [
     "Woodpile.Props.C07P.enc_once_never_panics",
